@@ -14,7 +14,7 @@ func init() {
 		ID:          "C07",
 		Explanation: "(R7.1) the caller's problem is left unchanged: no code reachable from the MUS / unsatisfiable-subset methods of *explain.Problem stores into storage that may belong to the receiver (its Clauses backing array, one of its clause arrays, NbVars, NbClauses) - whole-program storage-distance analysis with the receiver protected; accepted idioms: the private scratch fields units/tagged, and growth of Clauses under a deferred restoration; (R7.2) the error of a sub-extraction is tested before its result is used, and an error is propagated as a non-nil error with no problem.",
 		NotDecided:  "unsatisfiability and minimality of the returned clause set, and that its clauses occur in the input (depend on the solver's answers).",
-		Rules:       []ruleFn{ruleR7_1, ruleR7_2, ruleR7_3, ruleR7_4, ruleR13_10, ruleR8_2, ruleR8_3, ruleR8_6, ruleR8_7, ruleR8_8, ruleR8_9, ruleR9_4, ruleR9_5, ruleR9_6, ruleR10_1_3, ruleR10_4, ruleR10_5},
+		Rules:       []ruleFn{ruleR7_1, ruleR7_2, ruleR7_3, ruleR7_4, ruleR13_10, ruleR8_2, ruleR8_3, ruleR8_6, ruleR8_7, ruleR8_8, ruleR8_9, ruleR9_4, ruleR9_5, ruleR9_6, ruleR9_8, ruleR9_12, ruleR8_10, ruleR10_1_3, ruleR10_4, ruleR10_5},
 		Fixtures:    []func(*World) []string{fixtureR7_1},
 	})
 }
@@ -42,7 +42,9 @@ func runRecvE4(w *World, methods []*ssa.Function) *e4 {
 	for _, m := range methods {
 		prot[m.Params[0]] = true
 	}
-	a := &e4{w: w, protParam: prot, inertGlobal: map[*ssa.Global]string{}}
+	// appending to a slice of the receiver writes into its spare capacity (and, for a clause that is a window on a
+	// shared array, into the next clause): a sink like a store
+	a := &e4{w: w, protParam: prot, inertGlobal: map[*ssa.Global]string{}, appendIsSink: true}
 	a.run(w.Fns)
 	return a
 }
@@ -89,6 +91,9 @@ func ruleR7_1(w *World, r *Report) {
 			} else if defersRestorer(w, s.Fn) {
 				exempt = "growth of Clauses undone by the deferred restore (R8.2)"
 			}
+		}
+		if exempt == "" && s.Kind == "append" && strings.HasSuffix(s.Chain, ".Clauses)") && !strings.Contains(s.Chain, "[") && defersRestorer(w, s.Fn) {
+			exempt = "growth of Clauses (append to the list itself) undone by the deferred restore (R8.2)"
 		}
 		key := "sink " + k
 		if exempt != "" {
